@@ -205,7 +205,110 @@ pub fn cases(tier: &str) -> Vec<Value> {
             }
         }
     }
+    // forged cookies: a server part the attacker computes himself under a guessable key (all zero --
+    // what a key is before it is initialised or after it is "cleared"), after idle gaps of several
+    // key periods; never issued by this server, so never an exemption
+    for key in ["zero", "ones"] {
+        for idle_h in [0u64, 30, 50, 70, 100, 200] {
+            for pre_rot in [0u64, 1] {
+                out.push(json!({"engine":"enet","check":"c16","kind":"forged","key":key,"idle_hours":idle_h,"rotations":pre_rot}));
+            }
+        }
+    }
     out
+}
+
+fn hmac_sha256(key: &[u8], msg: &[u8]) -> Vec<u8> {
+    use sha2::Digest as _;
+    let mut k = [0u8; 64];
+    if key.len() > 64 {
+        k[..32].copy_from_slice(&sha2::Sha256::digest(key));
+    } else {
+        k[..key.len()].copy_from_slice(key);
+    }
+    let ipad: Vec<u8> = k.iter().map(|b| b ^ 0x36).collect();
+    let opad: Vec<u8> = k.iter().map(|b| b ^ 0x5c).collect();
+    let mut h = sha2::Sha256::new();
+    h.update(&ipad);
+    h.update(msg);
+    let inner = h.finalize();
+    let mut h = sha2::Sha256::new();
+    h.update(&opad);
+    h.update(inner);
+    h.finalize().to_vec()
+}
+
+fn run_forged(case: &Value) -> CaseResult {
+    let (b, _r) = RateLimiter::params();
+    let mut rig = match start_rig(vec!["127.0.0.1".into()]) {
+        Ok(r) => r,
+        Err(e) => return CaseResult::machinery(e),
+    };
+    let mut res = CaseResult::ok("cookie:forged");
+    let src: IpAddr = "127.0.0.2".parse().unwrap();
+    let other: IpAddr = "127.0.0.3".parse().unwrap();
+    let dst = rig.listen_addr(0);
+    let cc: Vec<u8> = vec![9, 8, 7, 6, 5, 4, 3, 2];
+    // ordinary life before: some key uses, rotations driven by traffic
+    for _ in 0..case["rotations"].as_u64().unwrap_or(0) {
+        if let Ok(mut t) = TcpClient::connect(Some(other), dst) {
+            let _ = t.conn.send_frame(&refused_query(9, "rotate.example", Some(vec![1, 1, 1, 1, 2, 2, 2, 2])));
+            for _ in 0..100 {
+                rig.pump(4);
+                t.poll();
+                if !t.conn.frames_in.is_empty() {
+                    break;
+                }
+            }
+        }
+        rig.advance(Duration::from_secs(37 * 3600));
+    }
+    // then silence
+    let idle = case["idle_hours"].as_u64().unwrap_or(0);
+    if idle > 0 {
+        rig.advance(Duration::from_secs(idle * 3600));
+    }
+    // empty the source's bucket so that only an exemption can produce a reply (these queries are
+    // also the first key use after the silence)
+    let mut c = match UdpClient::new(src) {
+        Ok(c) => c,
+        Err(e) => return CaseResult::machinery(e),
+    };
+    let _ = blast(&mut rig, &mut c, dst, 60, "drain");
+    let (g, _) = blast(&mut rig, &mut c, dst, 3, "probe");
+    if g != 0 {
+        let _ = blast(&mut rig, &mut c, dst, 200, "drain2");
+        let (g2, _) = blast(&mut rig, &mut c, dst, 3, "probe2");
+        if g2 != 0 {
+            let _ = rig.stop();
+            return CaseResult::machinery(format!("cannot empty the limiter bucket (capacity {b}): {g2} of 3 probes answered"));
+        }
+    }
+    let key: Vec<u8> = if case["key"].as_str() == Some("zero") { vec![0u8; 32] } else { vec![0xffu8; 32] };
+    let mut msg = cc.clone();
+    msg.extend_from_slice(&[127, 0, 0, 1]); // the address the query is sent to
+    msg.extend_from_slice(&[127, 0, 0, 2]); // the address it comes from
+    let mut presented = cc.clone();
+    presented.extend_from_slice(&hmac_sha256(&key, &msg));
+    let before = c.rx.len();
+    let _ = c.send(dst, &refused_query(0x77, "forged.example", Some(presented)));
+    rig.settle(|_| false);
+    c.poll();
+    rig.pump(10);
+    c.poll();
+    if c.rx.len() > before {
+        res.violations.push(
+            Violation::new("invalid-cookie-exempt", format!("a cookie whose server part was computed by the client under the all-{} key (never issued by this server) exempted it from the limiter, after {} traffic-driven rotation(s) and {idle} h of silence", case["key"].as_str().unwrap_or(""), case["rotations"]), case.clone())
+                .sig("part", "cookie")
+                .sig("forged", "yes"),
+        );
+    }
+    let ps = rig.stop();
+    if let Some(p) = ps.first() {
+        res.violations.push(Violation::new("panic", format!("service task panicked: {} at {}", p.msg, panics::short_loc(&p.loc)), case.clone()).sig("loc", panics::short_loc(&p.loc)));
+    }
+    res.stats = json!({"live_cases": 1});
+    res
 }
 
 /// a name of about `len` presentation octets (<= 253) ending in `base`
@@ -541,6 +644,7 @@ pub fn run_case(case: &Value) -> CaseResult {
     match case["kind"].as_str() {
         Some("volume") => run_volume(case),
         Some("hist") => run_hist(case),
+        Some("forged") => run_forged(case),
         _ => run_cookie(case),
     }
 }
@@ -571,12 +675,12 @@ pub fn run(tier: &str, replay: Option<Value>) -> ! {
     rep.cov("traces_validated_against_impl", n + agg.executions);
     rep.cov("evaluations", n + agg.executions);
     rep.cov("distinct_nontrivial", classes + agg.classes.len() as u64);
-    rep.cov("rule", "limiter: every history of length <= 6 (thorough 8) over {arrival with cost min, min+100, capacity, capacity+1; advance 1, 10, P-1, P, P+1, 2P s} (P = capacity/rate, read from the code) executed on a fresh real IpRateLimiter under the virtual clock; states = distinct grant/deny patterns. live: every arrival/advance history of length <= 3 (thorough 4) over {burst of 6 queries with name length short/120/240 x EDNS yes/no; advance 1, 100, P+1 s} on a fresh real service, REFUSED datagrams counted and sized at the client, every window judged in octets; 3 long volume patterns; and the full cookie matrix (client cookie x source x server address x 0/1/2 key rotations x cookie length) on the real service");
+    rep.cov("rule", "limiter: every history of length <= 6 (thorough 8) over {arrival with cost min, min+100, capacity, capacity+1; advance 1, 10, P-1, P, P+1, 2P s} (P = capacity/rate, read from the code) executed on a fresh real IpRateLimiter under the virtual clock; states = distinct grant/deny patterns. live: every arrival/advance history of length <= 3 (thorough 4) over {burst of 6 queries with name length short/120/240 x EDNS yes/no; advance 1, 100, P+1 s} on a fresh real service, REFUSED datagrams counted and sized at the client, every window judged in octets; 3 long volume patterns; and the full cookie matrix (client cookie x source x server address x 0/1/2 key rotations x cookie length) on the real service; forged cookies (server part computed by the client under the all-zero / all-ones key) after 0/1 traffic-driven rotations and 0..200 h of silence");
     rep.cov("exhaustive", true);
     rep.cov("live_executions", agg.executions);
     rep.cov("live_classes", json!(agg.classes));
     rep.cov("samples", samples);
     rep.assume("per source two of 256 buckets: burst 2B, rate 2R; concurrent check/deplete between two worker threads is not explored (the harness is single-threaded)");
-    rep.assume("a long silent gap spanning several rotation periods is don't-care (rotation is lazy)");
+    rep.assume("whether a cookie the server DID issue is still honoured after a silent gap spanning several rotation periods is don't-care (rotation is lazy); a cookie it never issued is never honoured, whatever the gap");
     rep.finish()
 }
